@@ -546,9 +546,15 @@ def gen_C14(tier, seed):
             rects = [(c0, r0, c1, r1) for c0 in range(c + 2) for c1 in range(c + 2) for r0 in range(r + 2) for r1 in range(r + 2)]
             dests = [(x, y) for x in list(range(c + 2)) + [U64] for y in list(range(r + 2)) + [U64]]
             combos = [(q, dd) for q in rects for dd in dests]
-            lines = [root]
-            for (q, dd) in sample(rng, combos, 150 if tier == "quick" else 800):
-                lines.append(f"{rv} copy_within {q[0]} {q[1]} {q[2]} {q[3]} {dd[0]} {dd[1]}")
+            def fits(q, dd):
+                return q[0] <= q[2] <= c and q[1] <= q[3] <= r and dd[0] + (q[2] - q[0]) <= c and dd[1] + (q[3] - q[1]) <= r
+            valid = [x for x in combos if fits(*x) and x[0][2] > x[0][0] and x[0][3] > x[0][1]]
+            other = [x for x in combos if not (fits(*x) and x[0][2] > x[0][0] and x[0][3] > x[0][1])]
+            # every fitting non-empty (source rectangle, destination) pair - all overlap directions - when there are few enough
+            picked = sample(rng, valid, 700 if tier == "quick" else 5000) + sample(rng, other, 80 if tier == "quick" else 600)
+            lines = []
+            for (q, dd) in picked:
+                lines += [root, f"{rv} copy_within {q[0]} {q[1]} {q[2]} {q[3]} {dd[0]} {dd[1]}"]
             b.case("u32", lines)
     return b.cases
 
